@@ -15,6 +15,9 @@ AdvParams ==
   \cup { [what |-> "vbe", a |-> <<m>>, b |-> <<>>] : m \in {7, 8, 9, 128, 200, 255} }
   \cup { [what |-> "elfhuge", a |-> n, b |-> es] : n \in {<<1, 0, 0, 4>>, <<0, 0, 0, 4>>, <<103, 102, 102, 6>>, <<255, 255, 255, 255>>, <<0, 0, 0, 128>>, <<1, 0, 0, 0>>},
                                                   es \in {<<64, 0, 0, 0>>, <<40, 0, 0, 0>>, <<0, 0, 0, 4>>, <<255, 255, 255, 255>>} }
+  \* string-table indices / entry sizes whose product leaves 32 bits, with no or one section (c: the count)
+  \cup { [what |-> "elfshndx", a |-> es, b |-> sh, c |-> n] : es \in {<<64, 0, 0, 0>>, <<0, 0, 1, 0>>, <<0, 0, 0, 1>>},
+                                                             sh \in {<<0, 0, 1, 0>>, <<0, 0, 0, 4>>, <<1, 0, 0, 4>>, <<255, 255, 255, 255>>}, n \in {0, 1} }
   \cup { [what |-> "fb64k", a |-> U16Bytes(nc), b |-> U32Bytes(bl)] : nc \in {21845, 21846, 30000, 65535}, bl \in {65534, 65540, 65600} }
   \cup { [what |-> "hugesize", a |-> a, b |-> <<>>] : a \in {<<248, 255, 255, 255>>, <<0, 0, 0, 128>>, <<255, 255, 255, 127>>, <<0, 0, 0, 64>>, <<1, 0, 0, 64>>} }
 AdvTag(p) ==
@@ -26,6 +29,8 @@ AdvTag(p) ==
     [] p.what = "vbe" -> Override(ConformantTag("vbe", 0), 528 + 27, p.a)
     [] p.what = "elfhuge" ->     \* a count / entry size whose product leaves 32 bits, one real ELF64 entry behind it
          U32Bytes(9) \o U32Bytes(20 + 64) \o p.a \o p.b \o U32Bytes(0) \o Override([j \in 1..64 |-> FillB(j)], 4, <<1, 0, 0, 0>>)
+    [] p.what = "elfshndx" ->
+         U32Bytes(9) \o U32Bytes(20 + 64) \o U32Bytes(p.c) \o p.a \o p.b \o Override([j \in 1..64 |-> FillB(j)], 4, <<1, 0, 0, 0>>)
     [] p.what = "fb64k" ->       \* indexed framebuffer with a colour-info area of about 64 KiB and a colour count that may not fit
          LET bl == LE4(p.b) IN
          U32Bytes(8) \o U32Bytes(32 + bl) \o [i \in 1..21 |-> i] \o <<0, 0, 0>> \o p.a \o [i \in 1..(bl - 2) |-> i % 251]
@@ -41,6 +46,9 @@ AdvCalls(p) ==
                            [op |-> "field", kind |-> "vbe", f |-> "mi.memory_model"], [op |-> "dbg", what |-> "vbe"], [op |-> "dbg", what |-> "bi"]>>
     [] p.what = "elfhuge" -> <<[op |-> "elf_sections", it |-> 0], [op |-> "next", it |-> 0, names |-> FALSE], [op |-> "next", it |-> 0, names |-> FALSE],
                                [op |-> "elf_sections_deprecated", it |-> 1], [op |-> "next", it |-> 1, names |-> FALSE], [op |-> "dbg", what |-> "elf"]>>
+    [] p.what = "elfshndx" -> <<[op |-> "elf_sections", it |-> 0], [op |-> "next", it |-> 0, names |-> FALSE], [op |-> "count", it |-> 0],
+                                [op |-> "elf_sections_deprecated", it |-> 1], [op |-> "next", it |-> 1, names |-> FALSE], [op |-> "dbg", what |-> "elf"],
+                                [op |-> "dbg", what |-> "bi"]>>
     [] p.what = "fb64k" -> <<[op |-> "get", kind |-> "framebuffer"], [op |-> "field", kind |-> "framebuffer", f |-> "buffer_type"],
                              [op |-> "dbg", what |-> "framebuffer"]>>
     [] p.what = "hugesize" -> <<[op |-> "tags", it |-> 0], [op |-> "next", it |-> 0], [op |-> "next", it |-> 0], [op |-> "get", kind |-> "cmdline"],
